@@ -6,6 +6,7 @@ package main
 
 import (
 	"fmt"
+	"time"
 	"go/ast"
 	"os"
 	"go/types"
@@ -310,10 +311,16 @@ func (e *Engine) verifyFunction(fn *ssa.Function, c *Contract) (err error) {
 
 func (e *Engine) verifyVariant(fn *ssa.Function, c *Contract, plan aliasPlan, sc splitCase) {
 	e.steps = 0
+	budget := 120
+	if c.Timeout > 0 {
+		budget = c.Timeout * 4
+	}
+	e.deadline = time.Now().Add(time.Duration(budget) * time.Second)
+	defer func() { e.deadline = time.Time{} }()
 	if os.Getenv("VCGO_DEBUG") != "" {
 		fmt.Fprintf(os.Stderr, "[verify] %s [%s]\n", e.curFunc, e.variant)
 	}
-	st := &State{mem: e.gmem.clone(), hypKeys: map[string]bool{}, subst: map[string]*Term{}, names: map[string]Value{}, cuts: map[string]bool{}, weak: map[string]bool{}, inLoop: map[*ssa.BasicBlock]bool{}, ghost: map[string]Value{}}
+	st := &State{mem: e.gmem.clone(), hypKeys: map[string]bool{}, subst: map[string]*Term{}, names: map[string]Value{}, cuts: map[string]bool{}, weak: map[string]bool{}, visits: map[*ssa.BasicBlock]int{}, inLoop: map[*ssa.BasicBlock]bool{}, ghost: map[string]Value{}}
 	args := make([]Value, len(fn.Params))
 	params := map[string]Value{}
 	for i, p := range fn.Params {
@@ -476,13 +483,11 @@ func (e *Engine) checkReturn(ex Exit, fr *Frame, fn *ssa.Function, c *Contract, 
 				for _, u := range c.Using {
 					e.tryLemma(st2, &env2, u)
 				}
-				g := env2.boolTerm(ce.Args[1])
-				e.addObligation(st2, fr, "ensures", strconv.Itoa(i), g, en.Text)
+				e.consequentObligation(st2, fr, &env2, a, ce.Args[1], en, i)
 				continue
 			}
 		}
-		g := env.boolTerm(en.Expr)
-		e.addObligation(st, fr, "ensures", strconv.Itoa(i), g, en.Text)
+		e.ensuresObligation(st, fr, env, en, i)
 	}
 	if len(c.Panics) > 0 {
 		env2 := e.specEnv(old, old, fn, c, args)
@@ -709,7 +714,7 @@ func (e *Engine) findGlobal(pkgPath, name string) *ssa.Global {
 // (ground evaluation by the engine's own SSA interpreter; calls are inlined, contracts unused).
 func (e *Engine) initGlobals(order []*ssa.Package) error {
 	e.gmem = &Memory{cells: map[string]Value{}}
-	st := &State{mem: e.gmem, hypKeys: map[string]bool{}, subst: map[string]*Term{}, names: map[string]Value{}, cuts: map[string]bool{}, weak: map[string]bool{}, inLoop: map[*ssa.BasicBlock]bool{}, ghost: map[string]Value{}}
+	st := &State{mem: e.gmem, hypKeys: map[string]bool{}, subst: map[string]*Term{}, names: map[string]Value{}, cuts: map[string]bool{}, weak: map[string]bool{}, visits: map[*ssa.BasicBlock]int{}, inLoop: map[*ssa.BasicBlock]bool{}, ghost: map[string]Value{}}
 	e.concrete = true
 	defer func() { e.concrete = false }()
 	for _, p := range order {
@@ -789,4 +794,48 @@ func (e *Engine) tryLemma(st *State, env *SpecEnv, u *Clause) {
 	for _, h := range e.instantiateLemma(env, u) {
 		st.assume(h)
 	}
+}
+
+// ensuresObligation: `A ==> B` whose consequent cannot be evaluated on this path (e.g. it dereferences a
+// nil result) holds only if A is false here: that becomes the obligation.
+func (e *Engine) ensuresObligation(st *State, fr *Frame, env *SpecEnv, en *Clause, i int) {
+	if ce, ok := en.Expr.(*ast.CallExpr); ok {
+		if id, ok := ce.Fun.(*ast.Ident); ok && id.Name == "implies" {
+			a := substitute(env.boolTerm(ce.Args[0]), st.subst)
+			if knownFalse(st, a) {
+				e.addObligation(st, fr, "ensures", strconv.Itoa(i), tTrue, en.Text)
+				return
+			}
+			st2 := st.fork()
+			env2 := *env
+			env2.st = st2
+			st2.assume(a)
+			e.consequentObligation(st2, fr, &env2, a, ce.Args[1], en, i)
+			return
+		}
+	}
+	g := env.boolTerm(en.Expr)
+	e.addObligation(st, fr, "ensures", strconv.Itoa(i), g, en.Text)
+}
+
+func (e *Engine) consequentObligation(st2 *State, fr *Frame, env2 *SpecEnv, a *Term, cons ast.Expr, en *Clause, i int) {
+	var g *Term
+	var evalErr string
+	func() {
+		defer func() {
+			if r := recover(); r != nil {
+				ee, ok := r.(engineError)
+				if !ok {
+					panic(r)
+				}
+				evalErr = ee.msg
+			}
+		}()
+		g = env2.boolTerm(cons)
+	}()
+	if evalErr != "" {
+		e.addObligation(st2, fr, "ensures", strconv.Itoa(i)+":guard-false", tFalse, en.Text+"   [consequent not evaluable on this path ("+evalErr+"), so the guard must be false]")
+		return
+	}
+	e.addObligation(st2, fr, "ensures", strconv.Itoa(i), g, en.Text)
 }
